@@ -362,3 +362,7 @@ package orb
 // given read-only pointers); listed as an assumption wherever it is used
 //@ func (Pointer).Point(p)
 //@   pure
+
+// the winding of a ring is a deterministic function of its vertices (callable in contracts)
+//@ func (Ring).Orientation(r)
+//@   function
